@@ -280,6 +280,8 @@ def c03(F, R, tier):
     # a wrong row in a logic lowering is a wrong answer end to end: the template cube check of C01 is shared
     import c01
     c01.t_logic_templates(F, R)
+    import c05rt
+    c05rt.check(F, R, tier, props=("C03",))
 
 
 @prop("C14",
@@ -299,3 +301,29 @@ def c18(F, R, tier):
     import c18 as mod
     mod.check(F, R, tier)
     mod.unbounded_alloc(F, R)
+
+
+# ---- additions after the false-alarm campaign (DESIGN 9.9): the evaluated rules each property gained, appended to its claim
+POLICY = (" VERDICTS: every obligation is discharged, violated (a counterexample of an evaluated family, or a recognised construct with the wrong content) or undecided"
+          " (the rule could not find, recognise or evaluate what it looks at -- after a refactoring, say); only violations fail the check; undecided obligations are printed and counted in"
+          " the evidence; a property of which nothing could be decided fails as BLIND. Clauses that recognise one spelling of the code can confirm it; when they miss they are undecided and"
+          " the evaluated rules named below decide. ENGINE-SELFTEST: the interpreter behind the evaluated rules is checked on every run against a fixture crate whose results are known.")
+EXTRA = {
+    "C03": "(SIMPLEX-EQUIV, BRIDGE-EQUIV shared with C04/C05) verdict and optimum of the crate's simplex path equal the exact answer on the small-program family.",
+    "C04": "(BRIDGE-EQUIV) both MicroLP bridges evaluated against a recording stand-in for the MicroLP API on 12 models: one column per variable in order with its kind, declared bounds and objective coefficient (also when the domain map is ordered differently from the variable list), rows, direction, each variable reported with its own column's value in its kind, objective plus constant, row activities. (GOODLP-BRIDGE-EQUIV) the same for the good_lp / Clarabel bridge. (SIMPLEX-EQUIV) the point the slow simplex returns names every variable once, lies in every declared range, satisfies every row and reproduces the reported value, on 42 (thorough 186) programs.",
+    "C05": "(SIMPLEX-EQUIV) solve_real_lp_problem_slow_simplex evaluated from typed HIR with IEEE doubles on 42 (thorough 186) programs of 1-7 variables -- bounded / free / half-bounded ranges, two-phase starts, redundant and degenerate rows, narrow infeasibility next to large right-hand sides, unbounded rays, ratio ties at small and large magnitude, tiny pivot-column entries, Beale's and Chvatal's cycling examples: the verdict is the exact one (Fourier-Motzkin over the rationals) and the optimum agrees to 1e-6; during development the evaluated path gave bit-identical values to the compiled crate on all programs. (BRIDGE-EQUIV / GOODLP-BRIDGE-EQUIV) solver errors and statuses map to the same verdicts.",
+    "C07": "(BOUNDS-SOUND additions) tiny coefficients on very wide variables; the published domain is held to exact containment of feasible end points in the inexact-arithmetic family.",
+    "C08": "(WELL-FORMED-SRC) 22 source programs compiled by the emulated front end and compile step: repeated and generated-looking row names stay distinct with the first use kept, cancelling / multiplying infinities are refused or leave finite numbers only, missing-bounds errors name exactly the variables without two finite ends, every used variable is a sorted, duplicate-free column.",
+    "C09": "(CONVERT-EXP addition) a binary minus glued to its operands (`2(y)-3`, `7-2`, `x-1`) is the binary minus.",
+    "C10": "(REWRITE-HAZARD addition) divisions by zero / by a variable hidden in abs, min, max under a zero factor, a zero numerator or a self-difference must survive simplify and flatten.",
+    "C12": "(RECOMPILE-EQUIV) 91 (thorough 667) programs: the printed linear model is accepted by grammar, converters, type checker and transformer and compiles to the very same text again, incl. names that collide with index fragments. (LINEAR-ROUND-TRIP addition) magnitudes up to 1e30. Known findings: empty `s.t.` section, non-idempotent bound propagation, zero-coefficient variable dropped on recompilation.",
+    "C13": "(SIMPLEX-EQUIV shared) the standard form is exercised end to end by the simplex family.",
+    "C14": "(SIMPLEX-EQUIV) see C05; all clauses above recognise source text of the pivot / ratio test / canonical start and are undecided when it is written differently. The step-wise invariants (monotone objective per pivot) are NOT decided.",
+    "C15": "(BRIDGE-EQUIV) 8 option sets (none, gap, limit, both, zero / negative / NaN gap) x 3 solver statuses: mip_gap and time_limit reach SolveOptions unchanged, nothing else differs from SolveOptions::default() (microlp 0.5), Optimal -> Optimal, Feasible -> Feasible, Interrupted -> Err(LimitReached) whatever the options.",
+    "C16": "(FRONT-DOOR-EQUIV addition) constants written in the text or supplied through the API: the type checker accepts and the transformer compiles the same model when a text constant is defined from an API constant.",
+    "C17": "(LP-ROUND-TRIP addition) coefficients, right-hand sides, offsets and bounds up to 1e30 and at 2^63.",
+    "C19": "(TYPE-SOUND addition) elements of union / intersection / difference / zip / enumerate results used in the kind the checker gives them.",
+    "C20": "(GOODLP-BRIDGE-EQUIV) solve_real_lp_problem_clarabel -> solve_with_good_lp -> collect_good_lp_duals evaluated against a recording model of good_lp (variables, expressions built with good_lp's overloaded operators, constraints, direction, scripted values / duals / statuses) on 4 models: every named row's shadow price is the dual held for that row's own constraint reference, unchanged (duals of both signs, tiny ones, binding rows with right-hand side 0); unnamed rows are left out; the objective keeps the model's direction and sign; rows keep their expression on the left with the matching comparison.",
+}
+for _pid, _spec in PROPS.items():
+    _spec["explanation"] = _spec["explanation"] + (" " + EXTRA[_pid] if _pid in EXTRA else "") + POLICY
